@@ -6,6 +6,9 @@
 #include <fcntl.h>
 #include <errno.h>
 #include <zlib.h>
+#include <atomic>
+#include <thread>
+#include <vector>
 
 using muduo::net::Buffer;
 using namespace vh;
@@ -123,6 +126,37 @@ int main() {
       while (::read(g_sv[1], sink, sizeof sink) > 0) {}
       printf("< readv %zd\n", n);
       stLine(*b, i2s(n));
+    } else if (op == "mtReadFd" && w.size() == 3) {
+      // oracle-only scenario: T threads, each its own socketpair + Buffer + byte value; every readFd call spills
+      int T = atoi(w[1].c_str()), R = atoi(w[2].c_str());
+      std::atomic<int> bad(-1), badRound(0), got(0);
+      std::vector<std::thread> ts;
+      for (int k = 0; k < T; ++k) ts.emplace_back([k, R, &bad, &badRound, &got] {
+        int sv[2];
+        if (socketpair(AF_UNIX, SOCK_STREAM | SOCK_NONBLOCK, 0, sv) != 0) return;
+        int sz = 1 << 20; setsockopt(sv[0], SOL_SOCKET, SO_SNDBUF, &sz, sizeof sz);
+        const char mine = static_cast<char>('A' + k);
+        std::string chunk(49152, mine);
+        for (int r = 0; r < R && bad.load() < 0; ++r) {
+          Buffer buf(16);
+          size_t off = 0;
+          while (off < chunk.size()) { ssize_t n = ::write(sv[0], chunk.data() + off, chunk.size() - off); if (n <= 0) break; off += static_cast<size_t>(n); }
+          size_t total = 0;
+          while (total < off) {
+            int err = 0;
+            ssize_t n = buf.readFd(sv[1], &err);
+            if (n <= 0) break;
+            total += static_cast<size_t>(n);
+          }
+          bool ok = buf.readableBytes() == off;
+          for (size_t i = 0; ok && i < buf.readableBytes(); ++i) if (buf.peek()[i] != mine) { ok = false; got = buf.peek()[i]; }
+          if (!ok) { badRound = r; bad = k; }
+        }
+        ::close(sv[0]); ::close(sv[1]);
+      });
+      for (auto& t : ts) t.join();
+      if (bad.load() < 0) printf("mt ok\n--\n");
+      else printf("mt corrupt thread=%d round=%d wrote='%c' buffer-holds=%d\n--\n", bad.load(), badRound.load(), 'A' + bad.load(), got.load());
     } else {
       bad();
     }
